@@ -4,6 +4,7 @@ package engines
 // "watch failures are never fatal" half of C14.
 
 import (
+	"context"
 	"fmt"
 	"strconv"
 	"time"
@@ -22,7 +23,7 @@ type e5desc struct {
 	Race   bool   `json:"race_mode"`
 }
 
-var e5Kinds = []string{"close", "err1", "err2", "err3", "status", "bookmark", "unknown", "nilobj", "burst1-close", "burst10-close", "burst60-close", "close-twice", "slow-connect", "dup", "status-close", "flap", "burst10-bookmark-close", "burst60-bookmark-close"}
+var e5Kinds = []string{"close", "err1", "err2", "err3", "status", "bookmark", "unknown", "nilobj", "burst1-close", "burst10-close", "burst60-close", "close-twice", "slow-connect", "dup", "status-close", "flap", "burst10-bookmark-close", "burst60-bookmark-close", "err-timeout", "err-canceled"}
 var e5Speeds = []string{"", "controller|update event", "watcher|session event", "watcher|session done", "watch-session|"}
 
 func e5Case(hseed uint64, pos int, kind, speed string, race bool) Case {
@@ -48,6 +49,7 @@ func e5Case(hseed uint64, pos int, kind, speed string, race bool) Case {
 		n := 12
 		burst := 0
 		errs := 0
+		var errValue error
 		f1 := kit.NoWatchFault()
 		f2 := kit.NoWatchFault()
 		var lat2 time.Duration
@@ -57,6 +59,16 @@ func e5Case(hseed uint64, pos int, kind, speed string, race bool) Case {
 		case "err1", "err2", "err3":
 			f1.CloseAfter = pos
 			errs = int(kind[3] - '0')
+		case "err-timeout", "err-canceled":
+			// the reconnect fails once with an error of the class a client-side timeout or
+			// an aborted rate-limiter wait produces, while nobody is shutting down
+			f1.CloseAfter = pos
+			errs = 1
+			if kind == "err-timeout" {
+				errValue = fmt.Errorf("Get \"https://apiserver/watch\": %w (Client.Timeout exceeded while awaiting headers)", context.DeadlineExceeded)
+			} else {
+				errValue = fmt.Errorf("client rate limiter Wait returned an error: %w", context.Canceled)
+			}
 		case "status":
 			f1.Frames = map[int][]watchEvent{pos: {kit.StatusFrame()}}
 		case "status-close":
@@ -98,7 +110,7 @@ func e5Case(hseed uint64, pos int, kind, speed string, race bool) Case {
 			case i == 1:
 				return f1
 			case i >= 2 && i < 2+errs:
-				return kit.WatchFault{Err: true, CloseAfter: -1}
+				return kit.WatchFault{Err: true, CloseAfter: -1, ErrValue: errValue}
 			case i == 2+errs:
 				f := f2
 				f.Latency = lat2
@@ -362,6 +374,9 @@ func init() {
 		}
 		for i := 0; i < tierPick(tier, 16, 600); i++ {
 			cases = append(cases, e5RelistRetryCase(seed, i))
+		}
+		for i := 0; i < tierPick(tier, 120, 2400); i++ {
+			cases = append(cases, eRelistAtExpiryCase("C04", "E5", seed, i))
 		}
 		return cases
 	})
